@@ -13,7 +13,9 @@ TECHNIQUE = ('decision-table extraction: TypeInference.safe_spanning_type, the h
              'their COMPLETE finite abstract domains (type kind flags x might_overflow; every operator of ExprNodes.binop_node_classes; handler resolution by '
              'the MRO dispatch of the visitor); path-sensitive save/restore dataflow (V3) on self.might_overflow; call-site and pipeline-order checks; '
              'pair table of the spanning-type computation (find_spanning_type -> PyrexTypes.spanning_type -> widest_numeric_type / result_type_of_builtin_operation, '
-             'evaluated by the checker over all ordered pairs of pure-Python value kinds)')
+             'evaluated by the checker over all ordered pairs of pure-Python value kinds); scope install/restore of the marking visitor evaluated on stub function nodes; '
+             'rank table of merged C numbers; constant folding of the two literal-size intervals against the 32-bit guarantee of a C long; decision tables of the None helper of infer_types() '
+             'and of NameDeletion.infer_type(); writer/reader agreement on the closure entry flag; operand-forwarding node classes found from their infer_type() shape')
 DECIDES = ('(a) C40-SST: for every C integer / enum kind that is not bint (plain, unsigned, Py_UCS4-like, enum, with or without an equivalent Python type) and might_overflow=True, '
            'safe_spanning_type does not return the C type but a Python object type; '
            '(b) C40-V3: every method of MarkOverflowingArithmetic that rebinds self.might_overflow saved the old value first and restores it on every normal exit; '
@@ -25,11 +27,23 @@ DECIDES = ('(a) C40-SST: for every C integer / enum kind that is not bint (plain
            '(e) C40-NAME: NameNode.infer_type does not hand out the locally inferred C integer type of an object-typed entry that might overflow; '
            '(f) C40-BOOL (rules/sC40.py): for every pure-Python value kind X other than bint (C integers of the literal / len() / range() ranks, Py_UCS4, C float / double / long double, '
            'C double complex, builtin int / float / complex / str, object) safe_spanning_type([bint, X]), ([X, bint]), ([X, X, bint]) and ([bint, X, X]) is a Python object type, '
-           'and [bint, bint] is bint: a variable that is a bool on one path never becomes a C number.')
+           'and [bint, bint] is bint: a variable that is a bool on one path never becomes a C number; '
+           '(g) C40-ENV: for every FuncDefNode class the handler the dispatch selects visits the body with self.env = node.local_scope and restores the previous scope; '
+           '(h) C40-WIDTH: the C number chosen for two merged kinds has at least the rank of every integer input (when it is an integer) / of every float input, a Python float needs a C double; '
+           '(i) C40-LITRANGE: IntNode.find_suitable_type_for_value and Utils.long_literal treat the same interval of literals as C-long-sized and it lies within [-2**31, 2**31-1]; '
+           '(j) C40-NONE: the type list the nested helper of infer_types() builds contains a Python object type whenever None is assigned ({None}, {None, C}, {None, Python int} in both orders); '
+           '(k) C40-DEL: NameDeletion.infer_type answers a Python object type for every C kind; C40-RANGEVAR: for range() with 1, 2, 3 arguments FlowControl.mark_forloop_target marks the '
+           'loop variable with the first two arguments and with start+step; (l) C40-SST also: an overflowing Py_UCS4 becomes str, not int; '
+           'C40-WIRE now sees every spanning_type(...) call of infer_types() including those in else-branches of its nested helpers. '
+           'Written but NOT armed (pending findings, both report the unmodified tree): C40-CLOSURE (FINDING_2: entry.might_overflow is stored on the InnerEntry of a closure variable only) and '
+           'C40-FORWARD (FINDING_3: CondExprNode / BoolBinopNode, whose value is one of their operands, are visited as "safe").')
 NOT_DECIDED = ('the spanning-type computation for pairs without a bool (C40-PYTYPE, the general "the chosen C type has the Python type of every merged kind" table, is written but NOT armed: '
                'it reports int+float -> C double etc. on the unmodified tree, pending finding), which assignments are collected (MarkParallelAssignments, control flow), result types of '
                'arithmetic nodes, everything value-dependent; definedness-aware inference (known finding K4, rule of C21e) is not re-checked here; float/double inference '
-               '(documented as safe) and the aggressive mode are outside the property.')
+               '(documented as safe) and the aggressive mode are outside the property; '
+               'the other branches of FlowControl.mark_forloop_target (enumerate / reversed / generic iteration; C40-RANGEVAR decides range() with 1-3 arguments), whether an unresolved assignment type can reach the first pass '
+               '(infer_unresolved_guard), that set_entry_type types every closure entry (infer_set_entry_outer_only); single-operand value wrappers '
+               '(EvalWithTempExprNode: `max(x, 5) * big` wraps on the unmodified tree, see FINDING_3) and bint arithmetic (`b = not k; b * big`) are open.')
 ASSUMPTIONS = [
     'type stubs: every is_* flag that a scenario does not set is 0 (class default of PyrexType); integer-like kinds coerce to Python objects (can_coerce_to_pyobject is True)',
     'the scenario type is already simple: PyrexTypes.remove_cv_ref is modelled as the identity and reduce(f, [T]) as T (one assignment)',
@@ -69,6 +83,8 @@ MUTATIONS = [
     ('Cython/Compiler/TypeInference.py', 'find_spanning_type: only `type1 is c_bint_type` tested (one assignment order)', 'C40-BOOL, orders [X, bint] / [X, X, bint]: caught'),
     ('Cython/Compiler/TypeInference.py', 'safe_spanning_type: `reduce(find_spanning_type, types)` "simplified" to `reduce(PyrexTypes.spanning_type, types)`', 'C40-BOOL: caught'),
     ('Cython/Compiler/PyrexTypes.py', 'spanning_type: the `py_object_type` early return dropped (same table: _spanning_type answers py_object_type)', 'silent, correctly'),
+    # --- fourth round: see /verif/mutants/C40/*/meta.json (34 mutants: 24 breaking, 10 behaviour preserving), replayed by the thorough tier
+    ('Cython/Compiler/PyrexTypes.py', 'widest_numeric_type returns the narrower rank', 'C40-PYTYPE / C40-WIDTH: caught (before: ANALYSIS-ERROR, the embedded control of C40-PYTYPE called the repository - now self-contained)'),
     # behaviour preserving (all silent)
     ('Cython/Compiler/TypeInference.py', 'find_spanning_type: bint test rewritten `PyrexTypes.c_bint_type in (type1, type2)`', None),
     ('Cython/Compiler/TypeInference.py', 'find_spanning_type: parameters renamed, bint test hoisted into an early return in De Morgan form', None),
@@ -167,6 +183,10 @@ def rule_SST(ctx):
                       'where Python (and infer_types=False) computes a big int' % label)
         elif not is_py:
             r.violate(key, TI, fn.lineno, 'safe_spanning_type returns %s for "%s" with might_overflow set, which is not a Python object type' % (res, label))
+        elif 'Py_UCS4' in label and res == dom.py_int.label:
+            # a character variable must stay a string when it is turned into an object: `c + c` concatenates in Python
+            r.violate(key + ':char-as-int', TI, fn.lineno, 'safe_spanning_type turns an overflowing "%s" into a Python int object (%s): a variable holding a character of a string '
+                      'then behaves like a number (`c + c` adds code points instead of concatenating), infer_types=False keeps the str' % (label, res))
     pc = ast.parse("def safe_spanning_type(types, might_overflow, scope):\n    result_type = simply_type(reduce(find_spanning_type, types))\n"
                    "    if result_type.is_pyobject:\n        return result_type\n    elif result_type.is_int or result_type.is_enum:\n        return result_type\n"
                    "    return py_object_type\n").body[0]
@@ -246,7 +266,7 @@ def _run_handler(ix, vis, owner, fn, node, incoming, env_lookup=None):
     selfobj.attrs['visitchildren'] = lambda n, *a, **k: seen.append(selfobj.attrs['might_overflow'])
     selfobj.attrs['env'] = Obj('env', lookup=env_lookup or (lambda name: None))
     selfobj.attrs['env_stack'] = []
-    ev = Eval(ix)
+    ev = sC40.LoopEval(ix)          # Eval + `for x in <list>`: a handler may store the flag on every entry of entry.all_entries()
     ev.call(Method(RepoFn(owner.module, fn, owner), selfobj), [node])
     return seen, selfobj.attrs['might_overflow']
 
@@ -334,6 +354,7 @@ def rule_OPS(ctx, vis):
         raise AnalysisError('MarkOverflowingArithmetic has no visit_NameNode')
     for how in ('entry on the node', 'entry found by env.lookup'):
         entry = Obj('entry', flag_default=False, might_overflow=0)
+        entry.attrs['all_entries'] = lambda e=entry: [e]
         node = Obj('NameNode', flag_default=False, name='x', entry=entry if how.startswith('entry on') else None)
         try:
             _run_handler(ix, vis, h[1], h[2], node, True, env_lookup=lambda name, e=entry: e)
@@ -404,17 +425,19 @@ def rule_WIRE(ctx, vis):
     ncalls = 0
     sites = []
 
-    def collect(stmts, where):
-        for st in stmts:
-            if isinstance(st, (ast.FunctionDef, ast.AsyncFunctionDef)):
-                collect(st.body, st.name)
+    def collect(node, where):
+        # every call of the selected spanning-type function, in the function itself and in its nested helper functions
+        # (walk_no_nested(<statement>) would look at the `body` of a compound statement only and miss its test / else branch)
+        for ch in ast.iter_child_nodes(node):
+            if isinstance(ch, (ast.FunctionDef, ast.AsyncFunctionDef)):
+                collect(ch, ch.name)
                 continue
-            for n in walk_no_nested(st):
-                if isinstance(n, (ast.FunctionDef, ast.AsyncFunctionDef)):
-                    collect(n.body, n.name)
-                elif isinstance(n, ast.Call) and isinstance(n.func, ast.Name) and n.func.id == local:
-                    sites.append((where, n))
-    collect(fn.body, 'infer_types')
+            if isinstance(ch, (ast.ClassDef, ast.Lambda)):
+                continue
+            if isinstance(ch, ast.Call) and isinstance(ch.func, ast.Name) and ch.func.id == local:
+                sites.append((where, ch))
+            collect(ch, where)
+    collect(fn, 'infer_types')
     seen_keys = {}
     for where, n in sorted(sites, key=lambda x: (x[1].lineno, x[1].col_offset)):
         ncalls += 1
@@ -517,4 +540,8 @@ def run(ctx):
         f.rule = 'C40-V1'
     # C40-PYTYPE: the character merges it found were repaired in /repo (53b766066); the numeric merges (int+float, int+complex, float+complex -> one C number)
     # are long-standing documented-by-behaviour Cython semantics whose repair breaks `total = 0; total += x[i]` idioms in nogil code: recorded as known findings K11
-    return [rule_SST(ctx), rule_V3(ctx, vis), rule_OPS(ctx, vis), v1, rule_WIRE(ctx, vis), rule_NAME(ctx), sC40.rule_BOOL(ctx), sC40.rule_PYTYPE(ctx)]
+    return [rule_SST(ctx), rule_V3(ctx, vis), rule_OPS(ctx, vis), v1, rule_WIRE(ctx, vis), rule_NAME(ctx), sC40.rule_BOOL(ctx), sC40.rule_PYTYPE(ctx),
+            sC40.rule_ENV(ctx, vis), sC40.rule_WIDTH(ctx), sC40.rule_LITRANGE(ctx), sC40.rule_NONE(ctx), sC40.rule_DEL(ctx), sC40.rule_RANGEVAR(ctx),
+            # sC40.rule_CLOSURE(ctx),        # pending finding (/tmp/strengthen4/G9/FINDING_2.md): might_overflow of a closure variable is set on the InnerEntry only
+            # sC40.rule_FORWARD(ctx, vis),   # pending finding (/tmp/strengthen4/G9/FINDING_3.md): CondExprNode / BoolBinopNode are visited as "safe"
+            ]
